@@ -82,6 +82,7 @@ func RunC15(c *Ctx) {
 		var keep []kept
 		prev := "start"
 		limitThemed := index%30 == 11
+		sizeThemed := index%30 == 17
 		inbuf := make([]byte, 1<<16)
 		var prevDoc []byte
 		small := []string{"null", " null ", "{}", "[]", "[1]", `{"a":1}`, `{"a":1,"b":[true]}`, `{"a":1,"b":`, `[1,2,`, `"str"`, "12", `{"a":{"b":[]}}`, `[[],[[]]]`, "nul", ""}
@@ -90,6 +91,13 @@ func RunC15(c *Ctx) {
 			fn := r.Intn(3)
 			forced := false
 			switch {
+			case sizeThemed:
+				// size-themed history: containers just below / at / above the widths where hints and
+				// spare parts kick in, empty containers right after wide ones, strings of exactly a power
+				// of two (and one less / more) bytes followed by short strings (seeded changes C15r5-m1:
+				// a 32768-byte string shares the scratch the reader keeps; C15r5-m2: the pre-sized map
+				// of an empty object kept as a spare although it was also returned)
+				doc, dk, forced = sizeThemedDoc(r, i), "size-themed", true
 			case limitThemed && i%2 == 0:
 				// limit-themed history: small state-changing calls through all three methods (null
 				// rejections, empty and failing containers, wrong kinds) alternate with documents nested
@@ -171,6 +179,13 @@ func RunC15(c *Ctx) {
 			}
 			if e1 == nil {
 				switch v1.(type) {
+				case string:
+					// a returned string is immutable for the caller, but its bytes must be its own
+					if len(keep) >= 12 {
+						keep = keep[1:]
+					}
+					keep = append(keep, kept{orig: v1, snap: refmodel.CopyTree(v1), from: script})
+					c.Rec.C("string_values_kept_under_watch")
 				case []interface{}, map[string]interface{}:
 					if len(keep) >= 12 {
 						keep = keep[1:]
@@ -217,6 +232,71 @@ func RunC15(c *Ctx) {
 		c.Rec.R.Cases++
 		c.Rec.R.Nontrivial++
 		runHistory(uint64(i), false)
+	}
+}
+
+var sizeWidths = []int{13, 15, 16, 17, 20, 32, 33, 64, 65, 100, 128, 129}
+
+func wideContainer(b []byte, obj bool, n int) []byte {
+	if obj {
+		b = append(b, '{')
+	} else {
+		b = append(b, '[')
+	}
+	for i := 0; i < n; i++ {
+		if i > 0 {
+			b = append(b, ',')
+		}
+		if obj {
+			b = append(b, fmt.Sprintf(`"m%d":`, i)...)
+		}
+		b = append(b, byte('0'+i%10))
+	}
+	if obj {
+		return append(b, '}')
+	}
+	return append(b, ']')
+}
+
+func sizeThemedDoc(r *workload.Rand, i int) []byte {
+	obj := r.Intn(3) != 0
+	strLen := func() int { return 1<<(4+r.Intn(13)) + r.Intn(3) - 1 }
+	plain := func(b []byte, n int, fill byte) []byte {
+		b = append(b, '"')
+		for k := 0; k < n; k++ {
+			b = append(b, fill)
+		}
+		return append(b, '"')
+	}
+	switch (i + r.Intn(2)) % 6 {
+	case 0:
+		return wideContainer(nil, obj, sizeWidths[r.Intn(len(sizeWidths))])
+	case 1:
+		return []byte([]string{"{}", "[]", " { } ", "[ ]", `{"e":{}}`, "[[]]", "[{}]"}[r.Intn(7)])
+	case 2:
+		return []byte([]string{`{"x":1}`, `[1]`, `{"x":1,"y":[2]}`, `["s"]`, `{"k":"v"}`}[r.Intn(5)])
+	case 3:
+		// wide, empty and small as siblings inside one document
+		b := []byte(`{"a":`)
+		b = wideContainer(b, obj, sizeWidths[r.Intn(len(sizeWidths))])
+		if obj {
+			b = append(b, `,"b":{},"c":{"x":1},"d":{}}`...)
+		} else {
+			b = append(b, `,"b":[],"c":[1],"d":[]}`...)
+		}
+		return b
+	case 4:
+		b := []byte("[")
+		b = plain(b, strLen(), byte('a'+r.Intn(26)))
+		if r.Intn(2) == 0 {
+			b = append(b, `,"bbbbbbbb"`...)
+		}
+		return append(b, ']')
+	default:
+		if r.Intn(2) == 0 {
+			return plain(nil, strLen(), byte('A'+r.Intn(26)))
+		}
+		return []byte([]string{`"cccccccc"`, `["dddddddd","e"]`, `{"k":"ffffffff"}`}[r.Intn(3)])
 	}
 }
 
